@@ -170,7 +170,7 @@ int main(int argc, char **argv) {
         })));
         return c;
     });
-    bool ok = run_cases(a, ev, "c16-sequences", a.n(40000, 1000000), 200, gen, run);
+    bool ok = run_cases(a, ev, "c16-sequences", a.n(120000, 1500000), 200, gen, run);
     ev.write(a.out);
     return ok ? 0 : 1;
 }
